@@ -1,7 +1,8 @@
 ----------------------------- MODULE Trace_Tdl -----------------------------
 (* Stage T of C03 (exact part): call sequences RECORDED on the real TdlChannel / SuChannel / MuChannel
    classes - random tap profiles (quarter-sample delays up to 10 samples), the real Jakes / Rayleigh
-   generators wrapped by a logging subclass, arbitrary input lengths, fft sizes 8..64, arbitrary
+   generators wrapped by a logging subclass, arbitrary input lengths, fft sizes 2..64 (also below the
+   channel memory), arbitrary
    slice(start, stop, step) and index-array selections - are replayed through the ACTIONS of Tdl.tla.
    All traces of a run are validated in one TLC run (the trace is chosen in TInit).
 
@@ -55,7 +56,7 @@ Diff(o, e) ==
 \* the recorder only issues calls the machine has a transition for
 WellFormed(o) ==
   \/ o.k = "T" /\ o.n >= 1
-  \/ o.k = "F" /\ o.n >= 1 /\ Mem(XDisc(C.prof)) < o.fft /\ Len(SelIdx(o)) >= 1
+  \/ o.k = "F" /\ o.n >= 1 /\ Len(SelIdx(o)) >= 1
   \/ o.k = "Gen" /\ C.kind = "tdl" /\ o.n >= 1
   \/ o.k = "Dir" /\ dir # (o.n = 1)
   \/ o.k = "PL" /\ C.kind \in {"su", "mu"} /\ pl # o.n /\ o.n \in 0..Len(C.pls)
